@@ -148,6 +148,26 @@ def main(chk):
     # ---- containers: model checking + schedules replayed on real objects
     mc = tlc.run("Containers", "Containers.mc.cfg", "c20/mc", coverage=True, expect_violation=True)
     chk.add_mc("Containers.mc", mc)
+    # unbounded safety of the cursor core: Apalache discharges the inductive invariant of ContainersInd.tla
+    #   Init => IndInv,   IndInv /\ Next => IndInv',   IndInv => YieldsInOrder /\ ExhaustedMeansAll
+    import shutil
+    import subprocess
+    apa = shutil.which("apalache-mc")
+    if apa is None:
+        chk.machinery("apalache-mc is not on PATH")
+    else:
+        obligations = [("initiation", ["--init=Init", "--inv=IndInv", "--length=0"]), ("consecution", ["--init=IndInit", "--inv=IndInv", "--length=1"]),
+                       ("safety", ["--init=IndInit", "--inv=Safety", "--length=0"])]
+        outdir = tlc.workdir("c20/apalache")
+        done = {}
+        for name, args in obligations:
+            pr = subprocess.run([apa, "check", "--cinit=CInit"] + args + ["--out-dir=" + outdir, os.path.join(tlc.SPECS, "ContainersInd.tla")],
+                                capture_output=True, text=True, timeout=900, cwd=outdir)
+            done[name] = "EXITCODE: OK" in pr.stdout
+            if not done[name]:
+                chk.machinery("Apalache did not discharge the %s obligation of ContainersInd.IndInv:\n%s" % (name, pr.stdout[-800:]))
+        chk.part("unbounded_core", apalache_inductive_invariant=done)
+        shutil.rmtree(outdir, ignore_errors=True)
     if mc.violated:
         chk.machinery("Containers specification violates its own property: %s" % mc.violated)
         return
